@@ -21,6 +21,7 @@
 #include "enginecontrol.hpp"
 #include "parallel.hpp"
 #include "computerPlayer.hpp"
+#include <cerrno>
 #include <condition_variable>
 #include <cstdint>
 #include <cstdio>
@@ -70,12 +71,13 @@ struct RunSpec {
     long pctMaxSteps = 2000;        // horizon for PCT change points
     std::vector<Preempt> preempts;  // strategy 3
     long maxSteps = 3000000;
+    int lockYield = 0;              // every n-th mutex acquisition is a scheduling point (0 = never)
     Value toJson() const {
         Value v = Value::object();
         Value a = Value::array();
         for (auto& c : script) { Value o = Value::object(); o["text"] = c.text; o["cond"] = c.cond; o["arg"] = c.arg; a.push(o); }
         v["script"] = a; v["ns_per_node"] = nsPerNode; v["strategy"] = strategy; v["sched_seed"] = (long long)schedSeed;
-        v["pct_depth"] = pctDepth; v["pct_max_steps"] = pctMaxSteps; v["max_steps"] = maxSteps;
+        v["pct_depth"] = pctDepth; v["pct_max_steps"] = pctMaxSteps; v["max_steps"] = maxSteps; v["lock_yield"] = lockYield;
         Value p = Value::array();
         for (auto& x : preempts) { Value o = Value::object(); o["step"] = x.step; o["thread"] = x.thread; p.push(o); }
         v["preempts"] = p;
@@ -85,7 +87,7 @@ struct RunSpec {
         RunSpec r;
         for (auto& o : v.at("script").a) { ScriptCmd c; c.text = o.getStr("text"); c.cond = (int)o.getInt("cond", 0); c.arg = o.getInt("arg", 0); r.script.push_back(c); }
         r.nsPerNode = v.getInt("ns_per_node", 1000); r.strategy = (int)v.getInt("strategy", 0); r.schedSeed = (uint64_t)v.getInt("sched_seed", 1);
-        r.pctDepth = (int)v.getInt("pct_depth", 2); r.pctMaxSteps = v.getInt("pct_max_steps", 2000); r.maxSteps = v.getInt("max_steps", 3000000);
+        r.pctDepth = (int)v.getInt("pct_depth", 2); r.pctMaxSteps = v.getInt("pct_max_steps", 2000); r.maxSteps = v.getInt("max_steps", 3000000); r.lockYield = (int)v.getInt("lock_yield", 0);
         if (v.has("preempts")) for (auto& o : v.at("preempts").a) r.preempts.push_back({(long)o.getInt("step", 0), (int)o.getInt("thread", 0)});
         return r;
     }
@@ -276,6 +278,31 @@ public:
         if (me->st == T::SLEEP || me->st == T::INPUT) me->st = T::RUN;
     }
 
+    // ---- mutexes (pthread_mutex_lock/unlock are interposed by this binary, see the end of the file): taking a mutex is a
+    // scheduling point, and a thread that finds it held yields cooperatively instead of blocking in the kernel, so
+    // any other point (e.g. right after a notify inside a critical section) can safely be a scheduling point too
+    bool mutexMode = true;
+    long lockOps = 0;
+    void mutexYield() {
+        std::unique_lock<std::mutex> L(m);
+        T* me = self;
+        if (!me || cur != me->id) return;
+        // every lockYield-th mutex acquisition is a scheduling point (0 = none: a mutex then only matters when contended)
+        if (spec.lockYield <= 0 || (++lockOps % spec.lockYield) != 0) return;
+        reschedule(L, me, true);
+    }
+    void mutexBlocked(void* mtx) {
+        std::unique_lock<std::mutex> L(m);
+        T* me = self;
+        if (!me) return;
+        me->st = T::BLOCKED; me->obj = mtx;
+        reschedule(L, me, false);
+    }
+    void mutexReleased(void* mtx) {
+        std::unique_lock<std::mutex> L(m);
+        for (auto& t : th) if (t->st == T::BLOCKED && t->obj == mtx) { t->st = T::RUN; t->obj = nullptr; }
+    }
+
     // ---- SchedHooks
     void cvWait(void* cv, std::unique_lock<std::mutex>& userLock) override {
         userLock.unlock();
@@ -290,6 +317,9 @@ public:
     void cvNotify(void* cv) override {
         std::unique_lock<std::mutex> L(m);
         for (auto& t : th) if (t->st == T::BLOCKED && t->obj == cv) { t->st = T::RUN; t->obj = nullptr; }
+        // the moment right after a wake-up is where lost-wake-up windows open: make it a scheduling point
+        T* me = self;
+        if (mutexMode && me && cur == me->id) reschedule(L, me, true);
     }
     void yield(int) override {
         std::unique_lock<std::mutex> L(m);
@@ -321,6 +351,7 @@ public:
         step++;
         int next = pickNext(me, false);
         cur = next;
+        self = nullptr; // from here on this (exiting) thread uses the real primitives
         th[(size_t)next]->cv.notify_one();
     }
     void threadCreated() override {
@@ -556,3 +587,37 @@ inline RunResult run(const RunSpec& spec, int realTimeoutMs = 60000) {
 }
 
 } // namespace coop
+
+// ---- interposition of pthread_mutex_lock / pthread_mutex_unlock for this executable -------------------------------
+// Threads registered with the scheduler take mutexes cooperatively; everything else (unregistered threads, the
+// scheduler's own mutex, the time before a scheduler exists) goes straight to glibc.
+#include <dlfcn.h>
+#include <pthread.h>
+namespace coop {
+typedef int (*MutexFn)(pthread_mutex_t*);
+inline MutexFn realFn(const char* name) { return (MutexFn)dlsym(RTLD_NEXT, name); }
+static MutexFn realLock = realFn("pthread_mutex_lock");
+static MutexFn realUnlock = realFn("pthread_mutex_unlock");
+static MutexFn realTrylock = realFn("pthread_mutex_trylock");
+inline bool coopMutex(pthread_mutex_t* mtx) {
+    Sched* s = gSched;
+    return s && s->mutexMode && Sched::self && mtx != s->m.native_handle() && realTrylock;
+}
+}
+extern "C" int pthread_mutex_lock(pthread_mutex_t* mtx) {
+    if (!coop::realLock) coop::realLock = coop::realFn("pthread_mutex_lock");
+    if (!coop::coopMutex(mtx)) return coop::realLock(mtx);
+    coop::gSched->mutexYield();
+    for (;;) {
+        int r = coop::realTrylock(mtx);
+        if (r == 0) return 0;
+        if (r != EBUSY) return r;
+        coop::gSched->mutexBlocked(mtx);
+    }
+}
+extern "C" int pthread_mutex_unlock(pthread_mutex_t* mtx) {
+    if (!coop::realUnlock) coop::realUnlock = coop::realFn("pthread_mutex_unlock");
+    int r = coop::realUnlock(mtx);
+    if (coop::coopMutex(mtx)) coop::gSched->mutexReleased(mtx);
+    return r;
+}
